@@ -28,6 +28,12 @@ const MaxFwThreads = 32
 var Threads []*Thread
 var LOCALHOST = []byte{0x6c, 0x6f, 0x63, 0x61, 0x6c, 0x68, 0x6f, 0x73, 0x74}
 
+// isLocalhost reports whether the name is under /localhost,
+// i.e. its first component is the generic name component "localhost".
+func isLocalhost(name enc.Name) bool {
+	return len(name) > 0 && name[0].Typ == enc.TypeGenericNameComponent && bytes.Equal(name[0].Val, LOCALHOST)
+}
+
 // HashNameToFwThread hashes an NDN name to a forwarding thread.
 func HashNameToFwThread(name enc.Name) int {
 	// Dispatch all management requests to thread 0
@@ -196,9 +202,7 @@ func (t *Thread) processIncomingInterest(packet *defn.Pkt) {
 	core.LogTrace(t, "OnIncomingInterest: ", packet.Name, ", FaceID=", incomingFace.FaceID(), ", PitTokenL=", len(packet.PitToken))
 
 	// Check if violates /localhost
-	if incomingFace.Scope() == defn.NonLocal &&
-		len(interest.NameV) > 0 &&
-		bytes.Equal(interest.NameV[0].Val, LOCALHOST) {
+	if incomingFace.Scope() == defn.NonLocal && isLocalhost(interest.NameV) {
 		core.LogWarn(t, "Interest ", packet.Name, " from non-local face=", incomingFace.FaceID(), " violates /localhost scope - DROP")
 		return
 	}
@@ -367,8 +371,7 @@ func (t *Thread) processOutgoingInterest(
 	}
 
 	// Check if violates /localhost
-	if outgoingFace.Scope() == defn.NonLocal && len(interest.NameV) > 0 &&
-		bytes.Equal(interest.NameV[0].Val, LOCALHOST) {
+	if outgoingFace.Scope() == defn.NonLocal && isLocalhost(interest.NameV) {
 		core.LogWarn(t, "Interest ", packet.Name, " cannot be sent to non-local FaceID=", nexthop, " since violates /localhost scope - DROP")
 		return false
 	}
@@ -434,8 +437,7 @@ func (t *Thread) processIncomingData(packet *defn.Pkt) {
 	t.NInData++
 
 	// Check if violates /localhost
-	if incomingFace.Scope() == defn.NonLocal && len(packet.Name) > 0 &&
-		bytes.Equal(data.NameV[0].Val, LOCALHOST) {
+	if incomingFace.Scope() == defn.NonLocal && isLocalhost(data.NameV) {
 		core.LogWarn(t, "Data ", packet.Name, " from non-local FaceID=", *packet.IncomingFaceID, " violates /localhost scope - DROP")
 		return
 	}
@@ -544,7 +546,7 @@ func (t *Thread) processOutgoingData(
 	}
 
 	// Check if violates /localhost
-	if outgoingFace.Scope() == defn.NonLocal && len(data.NameV) > 0 && bytes.Equal(data.NameV[0].Val, LOCALHOST) {
+	if outgoingFace.Scope() == defn.NonLocal && isLocalhost(data.NameV) {
 		core.LogWarn(t, "Data ", packet.Name, " cannot be sent to non-local FaceID=", nexthop, " since violates /localhost scope - DROP")
 		return
 	}
